@@ -38,6 +38,15 @@ def run(ctx):
             c01.check_pipeline(sub, fb, cfg, "rln::public::RLN::generate_rln_proof", True, True)
         for r in sub.results:
             (ctx.ok if r.status == "ok" else ctx.fail)("R04-4", r.instance, r.reason, r.loc)
+    # R04-5 (shared with C20 R20-4 / C05 R05-2): the circuit's outputs are computed from the witness's own inputs: every named input
+    # vector is placed whole at its declared offset (exact length), the dispatch reaches the same-named operators and the outputs
+    # are the declared output signals
+    from . import c20
+    from ..main import Ctx as _Ctx2
+    sub = _Ctx2(ctx.pid, ctx.tier)
+    c20.check_evaluate(sub, ctx.fb("default"))
+    for r in sub.results:
+        (ctx.ok if r.status == "ok" else ctx.fail)("R04-5", r.instance, r.reason, r.loc)
     fx = ctx.fb("fixtures")
     from ..main import Ctx
     for fn, rule, f in [("pvfw_region_branch", "R04-1", check_pvfw), ("pvfw_x_in_nullifier", "R04-1", check_pvfw),
